@@ -621,6 +621,27 @@ func componentCaseWellFormed(c *Case) (*WF, string) {
 		w.Ghost = ""
 	}
 	w.Rounds = nil // (no second round inside the program: the reference describes one run)
+	if g := w.NodeByName("glob"); g != nil && g.Dup {
+		// overlapping patterns with a tagging consumer can stop on the unchanged tree
+		// (known finding F-C19-1, C19's to report): keep the first pattern only and
+		// the usual command process as consumer
+		var present []string
+		for p := range w.Sources {
+			present = append(present, p)
+		}
+		sort.Strings(present)
+		g.Dup = false
+		g.Globs = g.Globs[:1]
+		g.Files = globExpected(g.Globs[0], present)
+		for i := range w.Nodes {
+			if w.Nodes[i].Name == "use" {
+				gi := w.Nodes[i].Ins[0].From[0]
+				w.Nodes[i] = Node{Name: "use", Kind: KProc, Cores: 1,
+					Ins:  []InSpec{{Name: "a", From: []Edge{gi}}},
+					Outs: []OutSpec{{Name: "o0", Pattern: "{i:a}.use.o0"}}}
+			}
+		}
+	}
 	return w, kind
 }
 
